@@ -292,6 +292,15 @@ where
                     if transformer_info.when_to_insert == InsertTransformer::Lazily {
                         continue;
                     }
+                    // `pavex::Error::new` is registered for every scope that has error observers,
+                    // but observers are attached route by route: if this call graph has none,
+                    // and no error handler works with `pavex::Error`, nobody would consume
+                    // its output.
+                    if error_observer_ids.is_empty()
+                        && is_unused_pavex_error_new(*transformer_id, component_db, computation_db)
+                    {
+                        continue;
+                    }
                     // Not all transformers might be relevant to this `CallGraph`, we need to take their scope into account.
                     let transformer_scope_id = component_db.scope_id(*transformer_id);
                     if root_scope_id
@@ -1056,4 +1065,20 @@ impl RawCallGraphExt for RawCallGraph {
             )
         )
     }
+}
+
+/// Returns `true` if the transformer is the synthetic `pavex::Error::new` conversion and no
+/// other transformer (i.e. an error handler that takes `&pavex::Error`) builds on its output.
+fn is_unused_pavex_error_new(
+    transformer_id: ComponentId,
+    component_db: &ComponentDb,
+    computation_db: &ComputationDb,
+) -> bool {
+    let component = component_db.hydrated_component(transformer_id, computation_db);
+    matches!(component.computation(), Computation::Callable(_))
+        && component.output_type() == Some(&component_db.pavex_error)
+        && !component_db.is_error_handler(transformer_id)
+        && component_db
+            .transformer_ids(transformer_id)
+            .is_none_or(|ids| ids.is_empty())
 }
